@@ -124,6 +124,9 @@ Properties/C13.vos Properties/C13.vok Properties/C13.required_vos: Properties/C1
 Properties/C15.vo Properties/C15.glob Properties/C15.v.beautified Properties/C15.required_vo: Properties/C15.v Base/Prelude.vo Hash/Sha.vo Model/Errors.vo Model/Ocra.vo Model/Suite.vo Spec/SuiteName.vo Proofs/OcraProofs.vo Proofs/SuiteProofs.vo
 Properties/C15.vio: Properties/C15.v Base/Prelude.vio Hash/Sha.vio Model/Errors.vio Model/Ocra.vio Model/Suite.vio Spec/SuiteName.vio Proofs/OcraProofs.vio Proofs/SuiteProofs.vio
 Properties/C15.vos Properties/C15.vok Properties/C15.required_vos: Properties/C15.v Base/Prelude.vos Hash/Sha.vos Model/Errors.vos Model/Ocra.vos Model/Suite.vos Spec/SuiteName.vos Proofs/OcraProofs.vos Proofs/SuiteProofs.vos
+Properties/C16.vo Properties/C16.glob Properties/C16.v.beautified Properties/C16.required_vo: Properties/C16.v Base/Prelude.vo Model/Errors.vo Model/Utils.vo Model/Url.vo Proofs/UrlProofs.vo
+Properties/C16.vio: Properties/C16.v Base/Prelude.vio Model/Errors.vio Model/Utils.vio Model/Url.vio Proofs/UrlProofs.vio
+Properties/C16.vos Properties/C16.vok Properties/C16.required_vos: Properties/C16.v Base/Prelude.vos Model/Errors.vos Model/Utils.vos Model/Url.vos Proofs/UrlProofs.vos
 Properties/C17.vo Properties/C17.glob Properties/C17.v.beautified Properties/C17.required_vo: Properties/C17.v Base/Prelude.vo Model/Errors.vo Spec/Rfc4226.vo Spec/Rfc6287.vo Hash/Sha.vo Model/Decoder.vo Model/Derive.vo Model/Otp.vo Model/Ocra.vo Model/Utils.vo Proofs/DeriveProofs.vo Proofs/OcraProofs.vo Proofs/UtilsProofs.vo
 Properties/C17.vio: Properties/C17.v Base/Prelude.vio Model/Errors.vio Spec/Rfc4226.vio Spec/Rfc6287.vio Hash/Sha.vio Model/Decoder.vio Model/Derive.vio Model/Otp.vio Model/Ocra.vio Model/Utils.vio Proofs/DeriveProofs.vio Proofs/OcraProofs.vio Proofs/UtilsProofs.vio
 Properties/C17.vos Properties/C17.vok Properties/C17.required_vos: Properties/C17.v Base/Prelude.vos Model/Errors.vos Spec/Rfc4226.vos Spec/Rfc6287.vos Hash/Sha.vos Model/Decoder.vos Model/Derive.vos Model/Otp.vos Model/Ocra.vos Model/Utils.vos Proofs/DeriveProofs.vos Proofs/OcraProofs.vos Proofs/UtilsProofs.vos
